@@ -447,7 +447,7 @@ def rule_metric_parity(chk, prog):
     offs = sorted(sym.cval(t.a[1][1]) for t in shifts if t.a[1][1].k == 'const')
     A = alg.Algebra(ev2, opaque=lambda t: t in shifts)
     okform = sp.expand(A.conv(v) - sum(A.atom(t) for t in shifts)) == 0
-    chk.check(offs == [-1, 1] and okform and all((dict(t.a[2]).get('axis') or (t.a[1][2] if len(t.a[1]) > 2 else None)) == sym.const(-1) for t in shifts), rule,
+    chk.check(offs == [-1, 1] and okform and all((util.call_kwargs(t).get('axis') or (t.a[1][2] if len(t.a[1]) > 2 else None)) == sym.const(-1) for t in shifts), rule,
               f'{SH}.Grid.{name}: couples l only to l ± 1 (so it maps even ↔ odd functions of latitude)', str(offs), (f.file, f.lineno), '[-1, 1]', str(offs))
   f = prog.func(G + 'd_dlon')
   v, _, _ = sym.Evaluator(prog).run(f)
